@@ -375,7 +375,7 @@ func checkFilterProcessorPairs(p *Prog, r *Report) {
 			n := 0
 			for _, b := range f.Blocks {
 				for _, in := range b.Instrs {
-					if c, ok := in.(*ssa.Call); ok && calleeFull(&c.Call) == "(*strings.Builder).WriteRune" {
+					if c, ok := in.(*ssa.Call); ok && isLetterWrite(&c.Call) {
 						n++
 					}
 				}
@@ -717,7 +717,7 @@ func checkFlagLetters(p *Prog, r *Report) {
 		n := 0
 		for _, b := range fn.Blocks {
 			for _, in := range b.Instrs {
-				if c, ok := in.(*ssa.Call); ok && calleeFull(&c.Call) == "(*strings.Builder).WriteRune" {
+				if c, ok := in.(*ssa.Call); ok && isLetterWrite(&c.Call) {
 					n++
 				}
 			}
@@ -734,7 +734,7 @@ func checkFlagLetters(p *Prog, r *Report) {
 	for _, b := range printer.Blocks {
 		for _, in := range b.Instrs {
 			c, ok := in.(*ssa.Call)
-			if !ok || calleeFull(&c.Call) != "(*strings.Builder).WriteRune" {
+			if !ok || !isLetterWrite(&c.Call) {
 				continue
 			}
 			ru, _ := constInt(c.Call.Args[1])
@@ -1019,4 +1019,13 @@ func indexOfPortElem(v ssa.Value) ssa.Value {
 		return nil
 	}
 	return ia.Index
+}
+
+// isLetterWrite: one constant letter appended to a strings.Builder (WriteRune or WriteByte).
+func isLetterWrite(c *ssa.CallCommon) bool {
+	switch calleeFull(c) {
+	case "(*strings.Builder).WriteRune", "(*strings.Builder).WriteByte":
+		return true
+	}
+	return false
 }
